@@ -79,11 +79,15 @@ Ltac gen1 P32 C32 P64 C64 :=
   end.
 Ltac clear_unused := repeat match goal with H : ?T |- _ => lazymatch T with (_ = true) => fail | (_ = false) => fail | _ => clear H end end.   (* per-goal cost of case/destruct grows with the context; the literal facts are kept *)
 Ltac destruct_bools := repeat match goal with b : bool |- _ => destruct b end.
+Ltac destruct_bools_x CHK := repeat match goal with b : bool |- _ => lazymatch b with CHK => fail | _ => destruct b end end.      (* [chk] (overflow checks on/off) stays a variable *)
+(* After the booleans are destructed the literal facts are rewritten BEFORE the goal is normalised with the concrete integer functions:
+   a sign test of a mask literal that is still stuck would otherwise reach Z.land / Z.modulo as a neutral argument, on which vm_compute
+   does not terminate in reasonable time.  The generalise / destruct round is repeated while new atoms appear (early returns, statement ifs). *)
 Ltac solve_z P32 C32 P64 C64 CHK unlock lits :=
   vm_compute; try reflexivity; lits; cbv beta iota; try reflexivity; repeat (gen1 P32 C32 P64 C64);
-  unlock; clear_unused; destruct_bools; vm_compute; try reflexivity; lits; vm_compute; try reflexivity;
-  (* atoms whose argument depended on an earlier atom (sign bit of a comparison mask ...) are now applied to literals or variables *)
-  repeat (gen1 P32 C32 P64 C64); destruct_bools; vm_compute; try reflexivity; repeat (step; vm_compute; try reflexivity).
+  unlock; clear_unused; destruct_bools_x CHK; cbv beta iota; lits; vm_compute; try reflexivity; lits; vm_compute; try reflexivity;
+  repeat (progress (repeat (gen1 P32 C32 P64 C64)); destruct_bools_x CHK; cbv beta iota; lits; vm_compute; try reflexivity; lits; vm_compute; try reflexivity);
+  repeat (step; vm_compute; try reflexivity).
 
 (* variant that remembers which atom each boolean stands for (C20: the two sides of an erasure lemma expose the same comparison at
    different moments, the asserting side only after its assertion has been decided) *)
